@@ -84,6 +84,7 @@ typedef struct
 	octet certdata[2][2][CERT_HDR + 128];   /* [holder X][certificate of Y as X has / sends it] */
 	bake_cert cert[2][2];
 	octet hello[2][2][16];       /* [party][a|b] */
+	size_t hal, hbl;             /* lengths of helloa / hellob (both parties use the same; 0 = absent) */
 	octet pwd[2][8];
 	tape_t tape[2];
 	/* observations */
@@ -201,6 +202,11 @@ static void setup(bcase* c)
 		c->cert[X][Y].data = dd; c->cert[X][Y].len = CERT_HDR + pl;
 		c->cert[X][Y].val = X == Y ? (X ? valOwnB : valOwnA) : valStrict;
 	}
+	{	/* hello strings of different lengths, one or both absent (bake.h: both are optional) */
+		static const size_t LA[6] = { 16, 9, 0, 4, 16, 5 }, LB[6] = { 16, 4, 7, 0, 5, 16 };
+		c->hal = LA[(size_t)(c->id * 7 + 3) % 6]; c->hbl = LB[(size_t)(c->id * 7 + 3) % 6];
+		if (isSetup && strcmp(c->kind, "hello") == 0 && c->hal < 4) c->hal = 9;
+	}
 	if (!isSetup) return;
 	if (strcmp(c->kind, "hello") == 0) c->hello[w][0][3] ^= 0x20;             /* who's view of helloa differs */
 	else if (strcmp(c->kind, "pwd") == 0) c->pwd[w][2] ^= 0x01;
@@ -224,7 +230,7 @@ static void settingsOf(bcase* c, int X, bake_settings* s)
 {
 	memset(s, 0, sizeof *s);
 	s->kca = c->kca; s->kcb = c->kcb;
-	s->helloa = c->hello[X][0]; s->helloa_len = 16; s->hellob = c->hello[X][1]; s->hellob_len = 16;
+	s->helloa = c->hal ? c->hello[X][0] : 0; s->helloa_len = c->hal; s->hellob = c->hbl ? c->hello[X][1] : 0; s->hellob_len = c->hbl;
 	s->rng = tapeGen; s->rng_state = &c->tape[X];
 }
 
